@@ -40,7 +40,7 @@ Definition prop_C46 (i o : val) : bool :=
     match spec_classify limit os od s with
     | SHeader None rest => val_eqb o (VL [VL []; VL []; VB rest; VZ 0; VZ 0])
     | SHeader (Some ((sa, sp), (da, dp))) rest =>
-      val_eqb o (VL [VL [VB sa; VZ sp]; VL [VB da; VZ dp]; VB rest; VZ 0; VZ 0])
+      val_eqb o (VL [VL [VB sa; VZ sp]; VL [VB da; VZ dp; VZ 1]; VB rest; VZ 0; VZ 0])
     | SNoHeader => val_eqb o (VL [VL []; VL []; VB s; VZ 0; VZ 0])
     | SMalformed =>
       match o with
